@@ -120,10 +120,25 @@ let report_mode line =
       (ids (junit_rows per_rule)) (if file_status per_rule then 1 else 0) (if summary_ok_by_type per_rule then 1 else 0)
   | _ -> failwith "bad report input"
 
+(* write-back: "origmode stale stalemode defmode -1 o_stat o_open o_write o_close o_chmod o_replace o_remove -1"
+   contents are ints: 0 empty, 1 original, 2 fixed, 3 partial, 9 stale *)
+let wb_mode line =
+  match split_lines (ints line) with
+  | [om; stale; sm; dm] :: [a; b; c; d; e; f; g] :: _ ->
+    let oc = function 0 -> Ok | 1 -> Crash | 2 -> CrashMid 3 | 3 -> PermErr | 4 -> OsErr | 5 -> OsErrMid 3 | _ -> failwith "bad outcome" in
+    let sched = function SStat -> oc a | SOpen -> oc b | SWrite -> oc c | SClose -> oc d | SChmod -> oc e | SReplace -> oc f | SRemove -> oc g in
+    let s = { target = Some { data = 1; mode = nat_of_int om };
+              tmp = (if stale <> 0 then Some { data = 9; mode = nat_of_int sm } else None); bak = None } in
+    let (s', r) = write_vhdl_file 0 sched (nat_of_int dm) s 2 in
+    let show = function None -> "-" | Some fl -> Printf.sprintf "%d:%d" fl.data (int_of_nat fl.mode) in
+    Printf.sprintf "%s %s %s" (show s'.target) (show s'.tmp) (match r with Returned -> "returned" | RaisedOut -> "raised" | Killed -> "killed")
+  | _ -> failwith "bad wb input"
+
 let () =
   let mode = if Array.length Sys.argv > 1 then Sys.argv.(1) else "tokenizer" in
   let f = match mode with
     | "tokenizer" -> tokenizer
+    | "wb" -> wb_mode
     | "report" -> report_mode
     | "sched" -> sched_mode
     | "fixonly" -> fixonly_mode
